@@ -57,8 +57,8 @@ def run : Handler := fun req => do
           | some x =>
             if vs.any (fun y => y.name != x.name && y.tok == x.tok && (primaryCat y.medias == primaryCat x.medias || x.schemaType.isSome)) && got.variant != v && (vs.find? (fun y => y.name == got.variant)).map (·.tok) == some x.tok then "KnownSameStatusVariants"
             else if isDefault x.tok then "KnownDefaultIs200"
-            else if (code x.tok).isNone && x.tok != .named "Redirection3XX".toList then "KnownRangeIsFirstCode"
-            else if x.tok == .named "Redirection3XX".toList then "KnownRedirection3XXIs500"
+            else if (code x.tok).isNone &&
+                (match x.tok with | .named t => statusOkFor ((lookup t Oas3.Gen.Status.asStrTbl).getD "default".toList) n | _ => false) then "KnownRangeIsFirstCode"
             else if !(keys.all canonicalKey) then "KnownNonCanonicalKey"
             else if x.medias.length > 0 && primaryCat x.medias != .json then "KnownAlwaysJson"
             else ""
